@@ -60,7 +60,10 @@ def stimuli(tier, seed, ctx):
         if n == 4:
             perms = rnd.sample(perms, 4)
         for p in perms:
-            out.append({'cfg': cfg, 'order': list(p), 'cbfail': cbfail, 'cleanup': cleanup})
+            out.append({'cfg': cfg, 'order': list(p), 'cbfail': cbfail, 'cleanup': cleanup,
+                        # a second wait_init() while a slow clean-up of the stopped / failed
+                        # simulation is still in progress
+                        'late': rnd.random() < 0.3})
     return out
 
 
@@ -69,6 +72,7 @@ def execute(stim):
     cfg, order = stim['cfg'], stim['order']
     n = len(cfg)
     lines = []
+    late = []
 
     def tag(v):
         if v is edzed.UNDEF:
@@ -149,6 +153,14 @@ def execute(stim):
             cb = edzed.FuncBlock('cb', func=fn).connect('b1')
             if stim['cleanup']:
                 edzed.Repeat('rep', dest='b1', etype='nosuch', interval=1)     # a block with async clean-up
+            if stim.get('late'):
+                class SlowStop(edzed.AddonAsync, edzed.SBlock):
+                    def init_regular(self):
+                        self.set_output(0)
+
+                    async def stop_async(self):
+                        await asyncio.sleep(3 * TICK)
+                SlowStop('slowstop', stop_timeout=20 * TICK)
             t0 = loop.time()
             task = asyncio.create_task(circuit.run_forever())
             try:
@@ -161,6 +173,20 @@ def execute(stim):
                           'outs': [tag(blocks[b].output) for b in range(1, n + 1)],
                           'ready': bool(circuit.is_ready()), 'cb': 0 if cb.output is edzed.UNDEF else 1,
                           'err': circuit.error is not None})
+            if stim.get('late'):
+                stopper = asyncio.create_task(circuit.shutdown())
+                await asyncio.sleep(TICK)           # the clean-up is in progress now
+                busy = not task.done()
+                try:
+                    await circuit.wait_init()
+                    ok2 = True
+                except edzed.EdzedInvalidState:
+                    ok2 = False
+                late.append({'ev': 'wait2', 'ok': ok2, 'busy': busy})
+                try:
+                    await stopper
+                except BaseException:
+                    pass
             try:
                 await circuit.shutdown()
             except BaseException:
@@ -175,7 +201,7 @@ def execute(stim):
     # records after wait_init() returned belong to the clean-up, not to the start-up
     cut = next(i for i, e in enumerate(lines) if e['ev'] == 'wait')
     hdr = {'cfg': cfg, 'order': order, 'cbfail': bool(stim['cbfail']), 'cleanup': bool(stim['cleanup'])}
-    return {'hdr': hdr, 'ev': lines[:cut + 1]}
+    return {'hdr': hdr, 'ev': lines[:cut + 1] + late}
 
 
 def nontrivial(stim, trace):
